@@ -85,14 +85,14 @@ def one_writer(ctx, r, symlink=False):
         base.close()
 
 
-def one_reader(ctx, r, legacy=False, writer=None, reader=None):
+def one_reader(ctx, r, legacy=False, writer=None, reader=None, torn=None):
     """the converse schedule: a *reader* is parked after each of its own calls on the log (open, every read, close), a writer runs to completion
     meanwhile, the reader goes on — it must succeed and show the state before or after that writer.  Half of the stores end in the torn
     fragment of a killed writer (which the reader skips and the writer repairs)."""
     base, v, trace = crash.build_state(ctx, r, 5 + r.n(8), legacy=legacy)
     calls = strace.CALLS + "," + strace.STAT_CALLS       # the reader is also parked right after it has looked at the log's names
     try:
-        torn = r.p(55)
+        torn = r.p(55) if torn is None else torn
         if torn:
             frag = r.pick([b'{"type":"state","ts":"2026-01-01T00:00:00Z","data":{"id":"', b'{"type":"new_task","ts":"2026-01-01T00:00:00.5Z","data":{"id":"QQQQQQ","uuid":"u","title":"half', b'{'])
             with open(base.log_path(), "ab") as f:
@@ -210,6 +210,12 @@ def run(ctx):
             for _ in range(6):
                 if one_reader(ctx, r.fork(), legacy=legacy, writer=writer, reader=["--json", "list", "--all"]) != "empty":
                     break
+    # a reader in the middle of a log that ends in a killed writer's fragment, while a command that appends several lines repairs that tail and writes:
+    # the bytes the reader has already seen must stay what they were (the fragment is dropped by replacing the file, never by cutting it in place)
+    for writer in (("claim-oldest", ["--json", "--agent", "w", "claim"], None), ("new-task{state}", ["--json", "--agent", "w", "new", "task"], b'{"title":"w","state":"doing"}')):
+        for _ in range(6):
+            if one_reader(ctx, r.fork(), writer=writer, reader=["--json", "list", "--all"], torn=True) != "empty":
+                break
     for i in range(4 if ctx.quick else 100):
         one_reader(ctx, r.fork(), legacy=(i % 3 == 2))
     ctx.cov["rule"] = ("readers parked after each of their own calls on the log (open/read/close) while a writer runs to completion, on logs with and without a torn tail; "
